@@ -757,6 +757,8 @@ static Case gen_case_inner(const std::string &profile, uint64_t seed, const GenO
                 // boundaries spread over the whole list, always including the peak
                 long bi = std::min<long>((long)go.bounds.size() - 1, (j / 3 + 1) * (long)go.bounds.size() / nb - 1);
                 if (bi < 0) bi = 0;
+                // two-call configurations: the boundaries above the factors' own storage (per-thread working arrays of the second call) are the interesting ones
+                if (two) bi = (long)go.bounds.size() / 2 + bi / 2;
                 lw = go.bounds[bi] + (j % 3 - 1) * 8 + (j % 3 == 2 ? 8 : 0);
             }
             else {
@@ -766,6 +768,11 @@ static Case gen_case_inner(const std::string &profile, uint64_t seed, const GenO
                 long jj = j - 3 * nb;
                 if (jj >= 0 && jj < 12 && rs.chance(0.7)) lw = (long)(suff * frac[jj] * (0.9 + 0.2 * rs.unit()));
                 else lw = 1 + (long)rs.below((uint64_t)suff);
+            }
+            if (two && go.first_call_peak > 0 && !go.bounds.empty() && rs.chance(0.7)) {
+                // the window in which the first call just fits and the second one (more threads, new working arrays) may not
+                long p0 = go.first_call_peak, p1 = std::max(p0, go.bounds.back());
+                lw = p0 + 8 + (long)((double)(p1 - p0 + 64) * 1.05 * rs.unit());
             }
             // the TAIL end of the workspace is not aligned by the library: a length that is not a multiple of the word size
             // would misalign its own integer arrays, which no documented precondition allows
